@@ -145,8 +145,15 @@ def makeAbbreviatedNamespace (ns : String) (existing : List Ns) : String :=
   let taken := existing.map (·.abbreviation)
   findFreeAbbr (abbreviationBase ns) taken (taken.length + 1) 0
 
+/-- `abbreviation_for_new_namespace`: a prefix that begins with "xml" is reserved; such a namespace gets the fallback stem -/
+def startsWithXml (a : String) : Bool := a.toList.take 3 == ['x', 'm', 'l']
+
+def abbreviationForNewNamespace (ns : String) (existing : List Ns) : String :=
+  let a := makeAbbreviatedNamespace ns existing
+  if startsWithXml a then makeAbbreviatedNamespace "" existing else a
+
 def mkNs (url : String) (existing : List Ns) : Ns :=
-  let abbr := makeAbbreviatedNamespace url existing
+  let abbr := abbreviationForNewNamespace url existing
   { uri := url, abbreviation := abbr, rustModName := "mod_" ++ abbr }
 
 def rustTrim (s : String) : String := String.ofList (trimWs s.toList)
